@@ -138,6 +138,9 @@ func runC16(_ *testing.T, c c16Case) kit.Outcome {
 			if cur != nil {
 				wantTap = append(wantTap, *cur)
 			}
+			if foldsAmbiguous {
+				continue // from here on the window rules leave the outcome open: nothing further is compared for this case
+			}
 			if len(b.Tap.Got) != len(wantTap) {
 				return kit.Viol("windowed:forward", "op %d %+v (in-flight %d): the algorithm behind the window(s) has received %d updates, the window rules give %d", i, op.S, inf, len(b.Tap.Got), len(wantTap))
 			}
